@@ -59,4 +59,11 @@ let () =
          | None -> print_endline "OUT-OF-BOUNDS"
          | Some (_, chunks) ->
            print_endline ("OK" ^ String.concat "" (List.map (fun ch -> " " ^ string_of_int (List.length ch)) chunks) ^ " sum=" ^ checksum chunks))
+      | "TS" :: ops ->
+        (match t_run block_cap [] (List.map sop_of ops) with
+         | TOk (b, blocks) ->
+           let all = blocks @ t_destroy b in
+           print_endline ("OK" ^ String.concat "" (List.map (fun ch -> " " ^ string_of_int (List.length ch)) all) ^ " sum=" ^ checksum all)
+         | TOutOfBounds -> print_endline "OUT-OF-BOUNDS"
+         | TFuel -> print_endline "FUEL")
       | _ -> print_endline "?")
